@@ -165,16 +165,44 @@ func miGetter1(g string, m *nasType.MobileIdentity5GS) string {
 
 var miGetters = []string{"type", "mobid", "suci", "plmn", "mcc", "mnc", "guti", "amfid", "region", "setid", "ptr", "tmsi", "imei", "imeisv", "stmsi"}
 
+// convOp: every conversion is called twice with the very same argument slices: a conversion is a function of the octets it is
+// given, so the second answer equals the first and the argument octets are what they were (anything else is appended to the
+// answer, which then disagrees with the model and fails the oracles)
 func convOp(a []string) string {
 	if len(a) < 2 {
 		return "bad-op"
 	}
+	cache := map[int][]byte{}
+	first := convOp1(a, cache)
+	if first == "bad-op" || first == "panic" {
+		return first
+	}
+	second := convOp1(a, cache)
+	if second != first {
+		return first + " !second-call:" + strings.ReplaceAll(second, " ", "_")
+	}
+	for i, b := range cache {
+		if orig, ok := unhex(a[1+i]); ok && !bytes.Equal(orig, b) {
+			return first + " !argument-modified:" + hexs(b)
+		}
+	}
+	return first
+}
+
+func convOp1(a []string, cache map[int][]byte) string {
 	fn, a := a[0], a[1:]
 	bytesArg := func(i int) ([]byte, bool) {
 		if i >= len(a) {
 			return nil, false
 		}
-		return unhex(a[i])
+		if b, ok := cache[i]; ok {
+			return b, true
+		}
+		b, ok := unhex(a[i])
+		if ok {
+			cache[i] = b
+		}
+		return b, ok
 	}
 	switch fn {
 	case "suci":
